@@ -17,11 +17,12 @@ PROPS["C18"] = {
 PROPS["C13"] = {
     "level": "exploration",
     "exhaustive": {"quick": False, "thorough": False},
-    "rule": "rapid-generated package.json documents (3 dependency sections in any combination, peerDependencies and unrelated nested keys, plain/scoped/dotted/special names, npm: aliases, non-registry specifiers, arbitrary key order, indentation, colon style, CRLF, compact layout, trailing newline) and pom.xml documents (namespaced project, optional local parent in 5 placements, properties, dependencies, dependencyManagement, version-less managed declarations, default-active and inactive profiles, pluginManagement and build plugins, comments, CDATA, entity references, versions literal / ${p} / prefix${p} / ${p}suffix / ${p}.${q} / ${project.version}, properties shared by several dependencies, properties defined in the other file or overridden by the child, one property name defined in several scopes at once (the dependency's own default-active profile plus an earlier/later profile, project level, the local parent or a profile of the local parent), the same package declared with a version in a second place) x update sets addressed to requirements present in the file; one evaluation = write + re-read of one (document, update set); non-trivial = Write returned nil for >= 1 update; distinct by hash of the case JSON",
+    "rule": "rapid-generated package.json documents (3 dependency sections in any combination, peerDependencies and unrelated nested keys, plain/scoped/dotted/special names, npm: aliases, non-registry specifiers, arbitrary key order, indentation, colon style, CRLF, compact layout, trailing newline) and pom.xml documents (namespaced project, optional local parent in 5 placements, properties, dependencies, dependencyManagement, version-less managed declarations, default-active and inactive profiles, pluginManagement and build plugins, comments, CDATA, entity references, versions literal / ${p} / prefix${p} / ${p}suffix (.0 .1.0 .2.3 .0.0 .10 -jre .Final ...) / prefix${p}suffix / ${p}sep${q} with optional literal prefix and/or suffix / ${project.version}, in every scope (dependencies, dependencyManagement, profiles, plugin dependencies, local parent), properties shared by several dependencies, properties defined in the other file or overridden by the child, one property name defined in several scopes at once (the dependency's own default-active profile plus an earlier/later profile, project level, the local parent or a profile of the local parent), the same package declared with a version in a second place) x update sets addressed to requirements present in the file; requested versions from a fixed pool or, for 3 in 4 updates of a property-interpolated version, built from its literal text: the declared version with other property values that often end (begin) with characters of the literal suffix (prefix) next to them (${x}.0 -> 1.10.0, 10.0, 1.0.0.0; ${x}.1.0 -> 21.1.0), or a version that cannot be spelled through the properties (only the literal parts, another ending, another beginning) so that <version> itself has to be rewritten; one evaluation = write + re-read of one (document, update set); non-trivial = Write returned nil for >= 1 update; distinct by hash of the case JSON",
     "assumptions": ["updates are addressed the way remediation.ConstructPatches (FixVulns) builds them from the requirement list the reader returns (name, version as read, dep.Type of the requirement); dependencies of inactive profiles and of pluginManagement plugins, which only the Update path reaches, the way the Maven suggester builds them (literal versions only)",
                     "all generated parents are local files (no network); dependencyManagement imports and repositories are not generated",
                     "an update names a package; every requirement entry of that package is addressed, as Manifest.PatchRequirement + ConstructPatches do (one PackageUpdate per distinct requirement key, VersionFrom taken from the last entry with that key)",
                     "not generated: whitespace or comments inside a <version> element, attributes on dependency/properties/profile/plugin start tags, HTML-only entities, non-UTF-8 encodings, parent version updates (would need the network on re-read)",
+                    "for an update of a property-interpolated version either the text of <version> or the text of the property definitions in force for it may change (the writer chooses); the requirement read back must be the requested one either way; requested versions are arbitrary non-empty strings (doubled separators such as 1..0 included)",
                     "pom.xml preservation is judged on the encoding/xml token tree with adjacent character data merged (CDATA and escaped text are the same text)"],
     "engine": "rapid",
     "technique": "property-based testing with layout-aware generators; byte-exact expected rendering (package.json), token-tree comparison plus an independent reading of every dependency declaration (pom.xml), round trip through the reader",
